@@ -20,7 +20,7 @@ class SchemaDefinitionError(StathamError):
         )
 
 
-def _display(value) -> str:
+def _display(value, render=repr) -> str:
     """Render a value for an error message.
 
     Some values have no ``repr`` (integers beyond the interpreter's
@@ -28,7 +28,7 @@ def _display(value) -> str:
     failure must not fail on them.
     """
     try:
-        return repr(value)
+        return render(value)
     except ValueError:
         return f"<{type(value).__name__} value too large to display>"
 
@@ -60,8 +60,8 @@ class ValidationError(StathamError):
     def multiple_composition_match(cls, matching_models, data):
         return cls(
             "Matches multiple possible models. Must only match one.\n"
-            f"Data: {data}\n"
-            f"Models: {matching_models}"
+            f"Data: {_display(data, str)}\n"
+            f"Models: {_display(matching_models, str)}"
         )
 
 
